@@ -136,4 +136,193 @@ impl ControlFlowGraph {
         /*@wf*/ final(self).cfg_wf(),
         /*@effect*/ final(self).edge_insert_spec(*old(self), Edge { head, tail, condition: Some(condition), comment: None }, r),
 //@ end
+
+//@ fn impl ControlFlowGraph :: fn append loops=2
+//@ rewrite 1 `for block in other.graph().vertices() {` => `let vs__ = other.graph().vertices(); for block in it1: vs__ {` ## R-let-temp: gives the temporary vector a name (and names the ghost iterator) so that ghost code can mention the enumeration; evaluation order and values are unchanged
+//@ rewrite 1 `for edge in other.graph().edges() {` => `let es__ = other.graph().edges(); for edge in it2: es__ {` ## R-let-temp: gives the temporary vector a name (and names the ghost iterator); evaluation order and values are unchanged
+//@ spec
+    requires old(self).cfg_wf(), other.cfg_wf(), old(self).next_index + other.graph.vertices@.len() <= usize::MAX,
+    ensures
+        /*@wf*/ final(self).cfg_wf(),
+        /*@effect*/ final(self).append_spec(*old(self), *other, r),
+//@ enter
+    broadcast use stdcoll::axiom_btreemap_index_req;
+//@ before 0 `for block in it1`
+    let ghost vsq = vs__@;
+    let ghost mut minv: Map<usize, usize> = Map::empty();
+    proof {
+        lemma_import_blocks_init(*self, *other, vsq);
+        lemma_listed(other.graph, vsq, other.entry->0);
+    }
+//@ loop 0
+    invariant
+        old(self).cfg_wf(), other.cfg_wf(),
+        old(self).next_index + other.graph.vertices@.len() <= usize::MAX,
+        it1.seq() == vsq,
+        vsq.len() == other.graph.vertices@.len(),
+        other.graph.lists_vertices(vsq, |k: usize| true),
+        import_blocks_inv(*self, *old(self), *other, block_map@, minv, vsq, it1.index@),
+        self.entry == old(self).entry, self.exit == old(self).exit,
+        self.next_temp_index == old(self).next_temp_index, self.ssa_form == old(self).ssa_form,
+        it1.index@ == vsq.len() ==> renaming_pair(block_map@, minv, *other, old(self).next_index) && self.blocks_imported(*old(self), *other, block_map@),
+//@ before 0 `let new_block = block.clone_new_index(self.next_index);`
+    let ghost pre = *self;
+    let ghost bm0 = block_map@;
+    proof {
+        assert(!self.graph.vertices@.contains_key(self.next_index));
+    }
+//@ after 0 `self.graph.insert_vertex(new_block)?;`
+    proof {
+        lemma_import_blocks_step(pre, *self, *old(self), *other, bm0, minv, vsq, it1.index@);
+        minv = minv.insert(pre.next_index, block.index);
+        if it1.index@ + 1 == vsq.len() {
+            lemma_import_blocks_done(*self, *old(self), *other, block_map@, minv, vsq);
+        }
+    }
+//@ before 0 `for edge in it2`
+    let ghost esq = es__@;
+    let ghost v1 = self.graph.vertices@;
+    let ghost mut done: Set<(usize, usize)> = Set::empty();
+    let ghost mut epos: Map<(usize, usize), int> = Map::empty();
+    proof {
+        if esq.len() == 0 {
+            lemma_import_edges_done(*self, *old(self), *other, block_map@, minv, esq, done, epos, v1);
+        }
+    }
+//@ loop 1
+    invariant
+        old(self).cfg_wf(), other.cfg_wf(),
+        it2.seq() == esq,
+        other.graph.lists_edges(esq, |k: (usize, usize)| true),
+        renaming_pair(block_map@, minv, *other, old(self).next_index),
+        self.blocks_imported(*old(self), *other, block_map@),
+        import_edges_inv(*self, *old(self), *other, block_map@, minv, esq, it2.index@, done, epos, v1),
+        self.entry == old(self).entry, self.exit == old(self).exit,
+        self.next_temp_index == old(self).next_temp_index, self.ssa_form == old(self).ssa_form,
+        it2.index@ == esq.len() ==> self.edges_imported(*old(self), *other, block_map@, minv, None),
+//@ before 0 `let new_head: usize`
+    let ghost pre = *self;
+    proof {
+        lemma_import_edges_fresh(*self, *old(self), *other, block_map@, minv, esq, it2.index@, done, epos, v1);
+    }
+//@ after 0 `self.graph.insert_edge(new_edge)?;`
+    proof {
+        lemma_import_edges_step(pre, *self, *old(self), *other, block_map@, minv, esq, it2.index@, done, epos, v1);
+        done = done.insert((edge.head, edge.tail));
+        epos = epos.insert((edge.head, edge.tail), it2.index@);
+        if it2.index@ + 1 == esq.len() {
+            lemma_import_edges_done(*self, *old(self), *other, block_map@, minv, esq, done, epos, v1);
+        }
+    }
+//@ before 0 `if is_empty {`
+    let ghost mid = *self;
+    proof {
+        assert(block_map@.contains_key(other.entry->0) && block_map@.contains_key(other.exit->0));
+        assert(minv.contains_key(block_map@[other.entry->0]));
+        if !is_empty {
+            lemma_transition_fresh(*self, *old(self), *other, block_map@, minv, self.exit->0, block_map@[other.entry->0]);
+        }
+    }
+//@ after 0 `self.graph.insert_edge(transition_edge)?;`
+    proof {
+        lemma_transition_step(mid, *self, *old(self), *other, block_map@, minv, transition_edge);
+    }
+//@ before 0 `Ok(())`
+    proof {
+        lemma_imported_wf(*self, *old(self), *other, block_map@, minv);
+        assert(self.appended_with(*old(self), *other, block_map@, minv));
+    }
+//@ end
+
+//@ fn impl ControlFlowGraph :: fn insert loops=2
+//@ rewrite 1 `for block in other.graph().vertices() {` => `let vs__ = other.graph().vertices(); for block in it1: vs__ {` ## R-let-temp: gives the temporary vector a name (and names the ghost iterator) so that ghost code can mention the enumeration; evaluation order and values are unchanged
+//@ rewrite 1 `for edge in other.graph().edges() {` => `let es__ = other.graph().edges(); for edge in it2: es__ {` ## R-let-temp: gives the temporary vector a name (and names the ghost iterator); evaluation order and values are unchanged
+//@ spec
+    requires old(self).cfg_wf(), other.cfg_wf(), old(self).next_index + other.graph.vertices@.len() <= usize::MAX,
+    ensures
+        /*@wf*/ final(self).cfg_wf(),
+        /*@effect*/ final(self).insert_spec(*old(self), *other, r),
+//@ enter
+    broadcast use stdcoll::axiom_btreemap_index_req;
+//@ before 0 `for block in it1`
+    let ghost vsq = vs__@;
+    let ghost mut minv: Map<usize, usize> = Map::empty();
+    proof {
+        lemma_import_blocks_init(*old(self), *other, vsq);
+        lemma_listed(other.graph, vsq, other.entry->0);
+    }
+//@ loop 0
+    invariant
+        old(self).cfg_wf(), other.cfg_wf(),
+        old(self).next_index + other.graph.vertices@.len() <= usize::MAX,
+        other.entry is Some, other.exit is Some,
+        it1.seq() == vsq,
+        vsq.len() == other.graph.vertices@.len(),
+        other.graph.lists_vertices(vsq, |k: usize| true),
+        import_blocks_inv(*self, *old(self), *other, block_map@, minv, vsq, it1.index@),
+        self.entry is None, self.exit is None,
+        self.next_temp_index == old(self).next_temp_index, self.ssa_form == old(self).ssa_form,
+        entry_index == (if block_map@.contains_key(other.entry->0) { Some(block_map@[other.entry->0]) } else { None::<usize> }),
+        exit_index == (if block_map@.contains_key(other.exit->0) { Some(block_map@[other.exit->0]) } else { None::<usize> }),
+        it1.index@ == vsq.len() ==> renaming_pair(block_map@, minv, *other, old(self).next_index) && self.blocks_imported(*old(self), *other, block_map@),
+//@ before 0 `let new_block = block.clone_new_index(self.next_index);`
+    let ghost pre = *self;
+    let ghost bm0 = block_map@;
+    proof {
+        assert(!self.graph.vertices@.contains_key(self.next_index));
+    }
+//@ after 0 `self.graph.insert_vertex(new_block)?;`
+    proof {
+        lemma_import_blocks_step(pre, *self, *old(self), *other, bm0, minv, vsq, it1.index@);
+        minv = minv.insert(pre.next_index, block.index);
+        if it1.index@ + 1 == vsq.len() {
+            lemma_import_blocks_done(*self, *old(self), *other, block_map@, minv, vsq);
+        }
+    }
+//@ before 0 `for edge in it2`
+    let ghost esq = es__@;
+    let ghost v1 = self.graph.vertices@;
+    let ghost mut done: Set<(usize, usize)> = Set::empty();
+    let ghost mut epos: Map<(usize, usize), int> = Map::empty();
+    proof {
+        if esq.len() == 0 {
+            lemma_import_edges_done(*self, *old(self), *other, block_map@, minv, esq, done, epos, v1);
+        }
+    }
+//@ loop 1
+    invariant
+        old(self).cfg_wf(), other.cfg_wf(),
+        other.entry is Some, other.exit is Some,
+        it2.seq() == esq,
+        other.graph.lists_edges(esq, |k: (usize, usize)| true),
+        renaming_pair(block_map@, minv, *other, old(self).next_index),
+        self.blocks_imported(*old(self), *other, block_map@),
+        import_edges_inv(*self, *old(self), *other, block_map@, minv, esq, it2.index@, done, epos, v1),
+        self.entry is None, self.exit is None,
+        self.next_temp_index == old(self).next_temp_index, self.ssa_form == old(self).ssa_form,
+        it2.index@ == esq.len() ==> self.edges_imported(*old(self), *other, block_map@, minv, None),
+//@ before 0 `let new_head: usize`
+    let ghost pre = *self;
+    proof {
+        lemma_import_edges_fresh(*self, *old(self), *other, block_map@, minv, esq, it2.index@, done, epos, v1);
+    }
+//@ after 0 `self.graph.insert_edge(new_edge)?;`
+    proof {
+        lemma_import_edges_step(pre, *self, *old(self), *other, block_map@, minv, esq, it2.index@, done, epos, v1);
+        done = done.insert((edge.head, edge.tail));
+        epos = epos.insert((edge.head, edge.tail), it2.index@);
+        if it2.index@ + 1 == esq.len() {
+            lemma_import_edges_done(*self, *old(self), *other, block_map@, minv, esq, done, epos, v1);
+        }
+    }
+//@ before 0 `if entry_index.is_none() || exit_index.is_none()`
+    proof {
+        assert(block_map@.contains_key(other.entry->0) && block_map@.contains_key(other.exit->0));
+    }
+//@ before 0 `Ok((entry_index.unwrap(), exit_index.unwrap()))`
+    proof {
+        lemma_imported_wf(*self, *old(self), *other, block_map@, minv);
+        assert(self.inserted_with(*old(self), *other, block_map@, minv));
+    }
+//@ end
 }
